@@ -103,5 +103,6 @@ SPECS["C18"] = dict(level="exploration", server=True, assumptions=["schedules ar
 
 SPECS["C19"] = dict(level="exploration", assumptions=SCHED_ASSUME[1:] + ["the endpoint is an in-memory http.RoundTripper inside the bubble, so HTTP/1.1 framing and 1xx handling of net/http are not in the loop (a scripted 102 is observed as a final status, as the statement allows)", "in-flight bound: min(1000, 1 + success replies already sent) - a sound upper bound of the adaptive window"],
     min_relevant={"quick": 1000, "thorough": 20000},
-    rule="the real HttpPushStreamer (actions.NewHttpPusher) runs in virtual time against a scripted endpoint; scripts: all fast success, all slow (>= 1 s) success, alternating 500/204, bursts of 1-3 failures per message drawn from {transport error, 400, 404, 429, 500, 503} fast or slow, one final status per message walking 100..599, and a ramp of 60-120 messages; payload/attribute/key domains as in C02. Every request is checked against the documented envelope and the ledger: attempt numbering, never again after a success reply, never while a push of the same message is in flight, never before the backoff after a failure, retried within 10 virtual minutes, in-flight within the window bound, completed deliveries == success replies. Non-trivial = at least one re-push (or a slow / ramp script); distinct = distinct (script, size, status set, push count).",
-    parts=[dict(name="push", binary="rigv", pkg="rigv", test="TestC19", race=True, shards={"quick": 16, "thorough": 16})])
+    rule="the real HttpPushStreamer (actions.NewHttpPusher) runs in virtual time against a scripted endpoint; scripts: all fast success, all slow (>= 1 s) success, alternating 500/204, bursts of 1-3 failures per message drawn from {transport error, 400, 404, 429, 500, 503} fast or slow, one final status per message walking 100..599, and a ramp of 60-120 messages; payload/attribute/key domains as in C02. Every request is checked against the documented envelope and the ledger: attempt numbering, never again after a success reply, never while a push of the same message is in flight, never before the backoff after a failure, retried within 10 virtual minutes, in-flight within the window bound, completed deliveries == success replies. Plus a supervisor part: the real http-pusher service (services/http-push.go) runs in the bubble with http.DefaultTransport scripted, over random histories of create (pull / push A / push B), ModifyPushConfig (set / change / clear) and delete; after each step a published message must be POSTed exactly once to exactly the configured endpoint (or nowhere). Non-trivial = at least one re-push (or a slow / ramp script); distinct = distinct (script, size, status set, push count).",
+    parts=[dict(name="push", binary="rigv", pkg="rigv", test="TestC19", race=True, shards={"quick": 16, "thorough": 16}),
+           dict(name="svc", binary="rigv", pkg="rigv", test="TestC19svc", race=True, shards={"quick": 4, "thorough": 8})])
